@@ -5,10 +5,14 @@
 (*                                                                         *)
 (* World (`dra`, shape of the scenario's `dra` section): in-cluster slices  *)
 (* with two exclusive devices that each consume a pool counter, one shared  *)
-(* device with a capacity, optionally already allocated in the cluster;     *)
+(* device with a capacity, optionally already allocated in the cluster to  *)
+(* claims that stay (no pod consumers / a non-pod consumer) or that migrate *)
+(* with a pod being rescheduled in this pass (the seed of allocated devices *)
+(* = gatherAllocatedDevices; W_Releasable = FALSE is the rule the code has  *)
+(* today and is rejected: known finding F-C17-1..3);                        *)
 (* per-instance-type templates (type A: one exclusive device, type B: two,  *)
-(* each plus a shared template device); NodeClaims superposed over the types *)
-(* {A, B}; claims of five kinds (one / two exclusive in-cluster devices, a  *)
+(* each plus a shared template device); NodeClaims superposed over types    *)
+(* {A, B}; claims of six kinds (one / two exclusive in-cluster devices, a   *)
 (* share of 2 or 3 of the shared device, a template device, a share of the  *)
 (* shared template device).                                                  *)
 (*                                                                         *)
